@@ -102,6 +102,15 @@ def gen_rich(ctx, i):
     rng = ctx.rng("c14", i)
     kind = i % 3
     p = spec.gen_program(rng, f"o{i:04d}", n_ifaces=rng.choice([0, 1, 2, 3]))
+    if kind == 0:
+        # several forwarded attributes of one outer path on one handler: all of them arrive, in whatever order they are written
+        for part in p["parts"]:
+            for h in part["handlers"]:
+                if h["kind"] in spec.KINDS_ENUM and rng.random() < 0.3:
+                    tag = h["hid"].replace(".", "_")
+                    h["sv_attrs"] = list(h.get("sv_attrs", [])) + [f"serde(alias = \"{tag}_a\")", f"serde(alias = \"{tag}_b\")"]
+                    if rng.random() < 0.5:
+                        h["sv_attrs"].append("schemars(description = \"two\")")
     if kind == 1:
         spec.gen_reply_table(rng, p)
         unify_payload_names(p)
